@@ -285,7 +285,7 @@ int main(int argc, char **argv) {
     if (!g_h) { fprintf(stderr, "unknown harness %s\n", argv[2]); return 2; }
     uint64_t base = 1, start = 0, count = UINT64_MAX, seed = 1;
     int nw = 1, tier = 0, cpu = -1;
-    double seconds = 1e18, hang_limit = 20;
+    double seconds = 1e18, hang_limit = 90;
     for (int i = 3; i + 1 < argc; i += 2) {
         std::string k = argv[i];
         const char *v = argv[i + 1];
